@@ -162,6 +162,33 @@ func ReadReusing(data []byte, mode int, t reflect.Type, stopAt int) (res Result)
 	return res
 }
 
+// ReadNested reads data and, from inside the callback for record index at, reads inner completely with a second
+// ReadFile (two readers alive at once, in one goroutine — e.g. a join against a second file). Result is that of the
+// OUTER read; innerN is the number of records the inner read delivered and innerErr its error.
+func ReadNested(data, inner []byte, mode int, t reflect.Type, at int) (res Result, innerN int, innerErr error) {
+	defer func() {
+		if r := recover(); r != nil {
+			res.Panic = r
+			res.Site = panicSite()
+		}
+	}()
+	n := 0
+	res.Err = avro.ReadFile(NewReader(data, mode), reflect.New(t).Elem().Interface(), func(val unsafe.Pointer, rb *avro.ResourceBank) error {
+		v := reflect.NewAt(t, val).Elem()
+		res.Records = append(res.Records, gv.DeepCopy(v))
+		if n == at {
+			innerErr = avro.ReadFile(NewReader(inner, mode), reflect.New(t).Elem().Interface(), func(val unsafe.Pointer, rb2 *avro.ResourceBank) error {
+				innerN++
+				rb2.Close()
+				return nil
+			})
+		}
+		n++
+		return nil
+	})
+	return
+}
+
 func panicSite() string {
 	return siteFromStack()
 }
